@@ -119,28 +119,37 @@ def public_entry_points(ctx, rule, pairs):
         I = Interp(ctx.src)
         calls = []
 
-        def recorder(I_, args, kw, _calls=calls, _tq=tq):
-            _calls.append(I_.bound(_tq, list(args), dict(kw)))
+        def recorder(I_, args, kw, _calls=calls, _tq=tq, _vararg=tnode.args.vararg is not None, _np=len(params)):
+            b_ = I_.bound(_tq, list(args), dict(kw))
+            if _vararg:
+                b_["*"] = tuple(args[_np:])
+            _calls.append(b_)
             return I_.new_obj(f"result{len(_calls)}")
         I.stubs[tq] = recorder
         wrapper = I.global_name("__init__", name)
         vals = {p_: _sp.Symbol(f"arg_{p_}") for p_ in params}
         forms = [([vals[p_] for p_ in params[:k]], {}) for k in range(1, len(params) + 1)]
-        forms += [([vals[params[0]]], {p_: vals[p_]}) for p_ in params[1:]]
+        if params:
+            forms += [([vals[params[0]]], {p_: vals[p_]}) for p_ in params[1:]]
         if tnode.args.vararg is not None:
-            extra = [_sp.Symbol(f"extra{i}") for i in range(3)]
+            extra = [_sp.Symbol(f"extra{i}") for i in range(4)]
             forms.append(([vals[p_] for p_ in params] + extra, {}))
+            forms.append((["H2O", extra[0], "D2O", extra[1]], {}))
+        if tnode.args.kwarg is not None:
+            forms.append(([vals[p_] for p_ in params[:1]] or ["H2O"], {"density": _sp.Symbol("kw_density"), "name": "mix"}))
         # the first argument is most often a formula string: the same forms again with a string in that place
-        sv = dict(vals)
-        sv[params[0]] = "H2O"
-        forms += [(["H2O"] + [sv[p_] for p_ in params[1:k]], {}) for k in range(1, min(len(params), 3) + 1)]
-        forms += [(["H2O"], {p_: sv[p_]}) for p_ in params[1:3]]
+        if params:
+            sv = dict(vals)
+            sv[params[0]] = "H2O"
+            forms += [(["H2O"] + [sv[p_] for p_ in params[1:k]], {}) for k in range(1, min(len(params), 3) + 1)]
+            forms += [(["H2O"], {p_: sv[p_]}) for p_ in params[1:3]]
+        if not forms:
+            raise AnalysisError(f"{target} has no parameters to forward")
         bad = None
         for args, kw in forms:
-            want = dict(zip(params, args))
-            want.update(kw)
-            if len(args) > len(params):
-                want = I.bound(tq, list(args), dict(kw))
+            want = I.bound(tq, list(args), dict(kw))
+            if tnode.args.vararg is not None:
+                want["*"] = tuple(args[len(params):])
             for attempt in (1, 2):
                 n0 = len(calls)
                 try:
